@@ -1,5 +1,6 @@
 CONSTANTS Values = {2147483647}  Wants = {"prv", "pub", "dflt"}  PathSet = "none"  MaxOps = 4  SeedLen = 16  KeyMode = "full"
 SPECIFICATION Spec
 VIEW View
+INVARIANTS CacheTransparent ResultIsPure CompactSound MemoSound PublicStaysPublic ResOk
 ACTION_CONSTRAINT Emit
 CHECK_DEADLOCK FALSE
